@@ -200,3 +200,22 @@ def ecall_is_valid(code):
     for c in ECALL_PRINT + ECALL_EXIT:
         ok = ok | (code == c)
     return ok
+
+
+# ------------------------------------------------------------------------------------ print-string ecall (a7 = 4)
+# The reference is itself a loop: starting at a0 with nothing printed, one character per iteration.  The real loop in
+# ECALL.process_ecall is proved to run in lock step with it (same decision, same next address modulo 2**32, same text
+# so far) from every loop state, hence for strings of every length.
+def print_string_init(a0):
+    return a0, ""
+
+
+def print_string_step(address, printed, byte_at, lo):
+    """one iteration of the reference loop -> (kind, next address, text so far) with kind in fault | done | more"""
+    a = address % 2 ** 32
+    if a < lo:
+        return "fault", address, printed
+    b = byte_at(a)
+    if b == 0:
+        return "done", address, printed
+    return "more", address + 1, printed + chr(b)
